@@ -224,6 +224,7 @@ func (op *Operation) run() {
 		verifEv(op, verifRunEval(stalled != nil, op))
 		queryCondSignaled := op.cond.Signaled()
 		op.mu.Unlock()
+		verifGate(op, "run-unlocked")
 		select {
 		case stalled <- struct{}{}:
 		case <-op.stopping.Done():
